@@ -21,7 +21,8 @@ CaseOf(j) == [op |-> j.op,
                        packs |-> (0 :> j.pre.pack0 @@ 1 :> j.pre.pack1),
                        exists |-> S2(j.pre.exists),
                        idx |-> S2(j.pre.idx)],
-              ks |-> j.ks, noholes |-> j.noholes, perpack |-> j.perpack]
+              ks |-> j.ks, noholes |-> j.noholes, perpack |-> j.perpack,
+              sz |-> j.sz, target |-> j.target, budget |-> j.budget]
 
 TraceCases == {CaseOf(All[i]) : i \in DOMAIN All}
 
